@@ -412,7 +412,10 @@ class IMMachine(FormatMachine):
         if expect == "fail":
             if prop == "C10":
                 raise Violation("C10", "C10.source_or_unknown_arch_refused", "bad-arch-accepted/%s" % why, {"arch": arch})
-            raise Violation("C09", "C09.colliding_add_refused", "colliding-add-accepted/v%s" % model["version"],
+            # C05: "re-loading that file gives an identical object" - an object converted from an older document must also
+            # BEHAVE like one: in a C05 run the lapse is reported there
+            P = "C05" if (self.cfg.get("focus") == "C05" and model.get("version_origin") == "loaded") else "C09"
+            raise Violation(P, "%s.colliding_add_refused" % P, "colliding-add-accepted/v%s" % model["version"],
                             {"version": model["version"], "identity": list(identity(img))[:5]})
         if expect == UNSPEC:
             s.tainted = True
